@@ -131,11 +131,11 @@ Definition update_many (b : branch) (ps : list path) (upd : option (list cid))
 
 (** * subscribe.UpdateNotification
 
-    [fixed1 = false] is the code as it is.
-    DEFECT C06_1: the [updated] set is allocated only when the notification
-    carries more than one update/delete, so a single-update notification is
-    offered once per matching registered path.  Once fixes/C06_1 is in, the
-    set is always allocated: [fixed1 = true]. *)
+    [fixed1 = true] is the code as it is (since commit 0aa714c): the
+    [updated] set is always allocated.
+    C06_1 (fixed): before that commit ([fixed1 = false]) the set was allocated
+    only when the notification carried more than one update/delete, so a
+    single-update notification was offered once per matching registered path. *)
 Definition update_notification_gen (fixed1 : bool) (b : branch) (prefix : path) (paths : list path)
   : list cid :=
   let upd0 := if fixed1 || (1 <? List.length paths)%nat then Some [] else None in
@@ -161,17 +161,18 @@ Definition server_update_gen (fixed1 : bool) (b : branch) (pre : option gpath)
     path the code computes [query := append(prefix[, origin], names...)] and
     registers it; the removal closure captures the slice [query].
 
-    DEFECT C06_3: while the result fits in the capacity, [append] writes into
-    the backing array of [prefix], which all entries share, so the slice
-    captured for entry i is overwritten by the entries after it.  AddQuery has
-    already copied the names into the trie, so registration is right, but the
-    closure later removes, for entry i, the first [len_i] names of what the
-    LAST writers left in the array.  Once fixes/C06_3 is in, every entry gets
-    its own copy: [fixed3 = true].
+    C06_3 (fixed by commit 434b003, [fixed3 = true]: the capacity of [prefix]
+    is clipped to its length, so every [append] copies and each entry owns
+    its slice).  Before ([fixed3 = false]): while the result fits in the
+    capacity, [append] writes into the backing array of [prefix], which all
+    entries share, so the slice captured for entry i is overwritten by the
+    entries after it.  AddQuery has already copied the names into the trie,
+    so registration was right, but the closure later removed, for entry i,
+    the first [len_i] names of what the LAST writers left in the array.
 
-    DEFECT C06_2: an entry whose path is nil is skipped (the snapshot treats
-    it as the empty path).  Once fixes/C06_2 is in it is handled like the
-    empty path: [fixed2 = true]. *)
+    C06_2 (fixed by commit 601ff89, [fixed2 = true]: an entry whose path is
+    nil is handled like the empty path).  Before ([fixed2 = false]) it was
+    skipped, although the snapshot treats it as the empty path. *)
 Definition slice_cap : nat := 20.
 
 (** a slice: a window [0, len) on the shared array, or a private array *)
@@ -227,11 +228,13 @@ Definition add_subscription_gen (fixed2 fixed3 : bool) (b : branch) (c : cid) (p
 Definition remove_all (qs : list path) (c : cid) (b : branch) : branch :=
   fold_left (fun t q => remove_root q c t) qs b.
 
-(** * The code as it is now.  The coordinator switches a flag to [true] when
-      the corresponding patch under /verif/fixes is committed to the repository. *)
-Definition fixed_C06_1 : bool := false.  (* DEFECT C06_1: becomes true *)
-Definition fixed_C06_2 : bool := false.  (* DEFECT C06_2: becomes true *)
-Definition fixed_C06_3 : bool := false.  (* DEFECT C06_3: becomes true *)
+(** * The code as it is now: all three patches of /verif/fixes/C06_*.diff are
+      committed in the repository (0aa714c, 601ff89, 434b003).  [false] gives
+      the model of the code before the respective commit (used by the
+      regression refutations in MatchProofs.v). *)
+Definition fixed_C06_1 : bool := true.   (* C06_1 fixed by 0aa714c *)
+Definition fixed_C06_2 : bool := true.   (* C06_2 fixed by 601ff89 *)
+Definition fixed_C06_3 : bool := true.   (* C06_3 fixed by 434b003 *)
 
 Definition update_notification := update_notification_gen fixed_C06_1.
 Definition server_update := server_update_gen fixed_C06_1.
